@@ -21,13 +21,66 @@ def repair_draw_count(ctx):
                 if ci.get("name") != "compute_last_random_value":
                     continue
                 draws = a[2]
-                good = (is_call(a[0], name="collect") and mentions(a[0], arg(1)) and a[1] == ("arg", 2)
+                good = (set_of(P, f, v, arg(1))(a[0]) and a[1] == ("arg", 2)
                         and a[3] == ("arg", 4) and is_call(draws, name="generate_coefficients")
                         and draws[2][0] == ("bin", "Sub", draws[2][0][2], ("const", "usize", 1))
                         and length(arg(1))(draws[2][0][2]) and draws[2][1] == ("arg", 3))
         ctx.check(good, "DRAW", f.key, "draws==|helpers|-1",
                   "repair_share_part1 must draw exactly helpers.len()-1 values from the caller's rng and pass (helper "
                   "set, own key package, those values, repaired identifier) on", f.loc)
+
+
+def side_view(P, X):
+    """one side of a zip: (collection, element over ITEM): `.iter()`, `.iter().copied()`, `.iter().map(|x| f(x))`"""
+    X = strip_iter_calls(X)
+    while is_call(X) and X[1].rsplit("::", 1)[-1] in ("copied", "cloned", "iter", "into_iter") and len(X[2]) == 1:
+        X = strip_iter_calls(X[2][0])
+    if is_call(X, name="map") and len(X[2]) == 2:
+        body = closure_body(P, X[2][1], {2: ITEM})
+        base, inner = side_view(P, X[2][0])
+        if body is None or inner != ITEM:
+            return X, None
+        return base, body
+    return X, ITEM
+
+
+def out_entries(P, f, v, t):
+    """the returned map of compute_last_random_value as (pairs, singles): pairs = dict(left, right, key, val) for entries made
+    from the i-th elements of two collections zipped together (key/val over ITEM = the pair), singles = [(key, val)] — whether
+    written `zip(..).collect()` + insert or as a loop of inserts over the zip"""
+    from ..seq import _is_empty_ctor
+    if t[0] != "mut":
+        return None
+    pairs, singles = None, []
+    base = t[1]
+    pair = lambda l, r: (lambda x: l if x == ("field", ITEM, None, "0") else r if x == ("field", ITEM, None, "1") else None)
+    if _is_empty_ctor(base):
+        for c in map_components(P, f, v, t):
+            if c[0] == "each" and is_call(c[1], name="zip") and pairs is None:
+                (lb, le), (rb, re_) = side_view(P, c[1][2][0]), side_view(P, c[1][2][1])
+                if le is None or re_ is None:
+                    return None
+                m = [(lambda x: x == ("field", ITEM, None, "0"), subst(le, [(lambda y: y == ITEM, ("field", ITEM, None, "0"))])),
+                     (lambda x: x == ("field", ITEM, None, "1"), subst(re_, [(lambda y: y == ITEM, ("field", ITEM, None, "1"))]))]
+                pairs = {"left": lb, "right": rb, "key": subst(c[2], m), "val": subst(c[3], m)}
+            elif c[0] == "one":
+                singles.append((c[1], c[2]))
+            else:
+                return None
+        return pairs, singles
+    if is_call(base, name="collect") and base[2] and is_call(base[2][0], name="zip"):
+        (lb, le), (rb, re_) = side_view(P, base[2][0][2][0]), side_view(P, base[2][0][2][1])
+        if le is None or re_ is None:
+            return None
+        pairs = {"left": lb, "right": rb, "key": subst(le, [(lambda y: y == ITEM, ("field", ITEM, None, "0"))]),
+                 "val": subst(re_, [(lambda y: y == ITEM, ("field", ITEM, None, "1"))])}
+        for o in t[2]:
+            if o[1] != "insert" or len(o[2]) != 2 or o[3][0] == "inl" or any(o[3][-1] in lp["body"] for lp in f.loops()) or \
+                    not on_every_success_path(f, o[3][-1]):
+                return None
+            singles.append((o[2][0], o[2][1]))
+        return pairs, singles
+    return None
 
 
 def run(ctx):
@@ -70,7 +123,7 @@ def run(ctx):
         if mech is not None:
             refusal(ctx, f, "SEP", "G38:caller-not-in-helpers", mech, sinks)
         refusal(ctx, f, "SEP", "G39:duplicate-helpers",
-                [("set.len!=len", cmp_fact("eq", length(lambda t: mentions(t, call("collect")) and mentions(t, arg(1))),
+                [("set.len!=len", cmp_fact("eq", length(dedup_of(ctx.prog, f, FnView.get(ctx.prog, f), arg(1))),
                                            length(arg(1)), False))], sinks)
     repair_draw_count(ctx)
     from .c01 import lagrange_kernel
@@ -80,34 +133,27 @@ def run(ctx):
         v = FnView.get(P, f)
         oks = ok_values(f, v)
         good = False
-        if len(oks) == 1 and oks[0][0] == "mut":
-            base, ops = oks[0][1], oks[0][2]
-            ins = [o for o in ops if o[1] == "insert"]
-            zipok = (is_call(base, name="collect") and is_call(base[2][0], name="zip")
-                     and mentions(base[2][0][2][0], arg(1)) and mentions(base[2][0][2][1], arg(3)))
-            if len(ins) == 1 and zipok:
-                key, val = ins[0][2][0], unwrap_newtypes(ins[0][2][1])
-                zeta = lambda t: t[0] == "ok" and is_call(t[1], name="compute_lagrange_coefficient") and \
-                    t[1][2][0] == ("arg", 1) and t[1][2][1] == ("agg", "adt", "core::option::Option", "Some", (("0", ("arg", 4)),)) and \
-                    fld(arg(2), "identifier")(t[1][2][2])
-                lhs = lambda t: is_call(t, name="mul") and ((zeta(t[2][0]) and mentions(t[2][1], fld(arg(2), "signing_share")))
-                                                            or (zeta(t[2][1]) and mentions(t[2][0], fld(arg(2), "signing_share"))))
-                summ = lambda t: sum_over(P, f, v, t, arg(3))
-                good = (key[0] == "some" and is_call(key[1], name="last") and key[1][2][0] == ("arg", 1)
-                        and is_call(val, name="sub") and lhs(val[2][0]) and summ(val[2][1]))
+        ent = out_entries(P, f, v, oks[0]) if len(oks) == 1 else None
+        if ent is not None and ent[0] is not None and len(ent[1]) == 1:
+            pairs, (key, val) = ent[0], ent[1][0]
+            val = unwrap_newtypes(val)
+            zeta = lambda t: t[0] == "ok" and is_call(t[1], name="compute_lagrange_coefficient") and \
+                t[1][2][0] == ("arg", 1) and t[1][2][1] == ("agg", "adt", "core::option::Option", "Some", (("0", ("arg", 4)),)) and \
+                fld(arg(2), "identifier")(t[1][2][2])
+            lhs = lambda t: is_call(t, name="mul") and ((zeta(t[2][0]) and mentions(t[2][1], fld(arg(2), "signing_share")))
+                                                        or (zeta(t[2][1]) and mentions(t[2][0], fld(arg(2), "signing_share"))))
+            summ = lambda t: sum_over(P, f, v, t, arg(3))
+            good = (key[0] == "some" and is_call(key[1], name="last") and key[1][2][0] == ("arg", 1)
+                    and is_call(val, name="sub") and lhs(val[2][0]) and summ(val[2][1])
+                    and pairs["left"] == ("arg", 1) and pairs["right"] == ("arg", 3)
+                    and strip_newtype_fields(pairs["key"]) == ("field", ITEM, None, "0"))
+            ctx.check(strip_newtype_fields(unwrap_newtypes(pairs["val"])) == ("field", ITEM, None, "1"), "PROV", f.key, "delta==random-value",
+                      "each non-last delta must be exactly the drawn value", f.loc)
         ctx.check(good, "AGREE", f.key, "last==zeta*share-sum(random)",
                   "the helper's outgoing values must be the drawn values for the first |H|-1 helpers and zeta_i*s_i minus "
                   "their sum for the last helper, zeta_i = Lagrange(helpers, at repaired identifier, own identifier)",
                   f.loc)
         reductions(ctx, f.key, adaptors={"zip": 1}, min_loops=0)
-        # closure maps each random value unchanged into a Delta
-        zipped = [s for s in subterms(oks[0]) if is_call(s, name="zip")] if oks else []
-        for s in subterms(zipped[0][2][1]) if zipped else []:
-            if s[0] == "closure":
-                cf = P.fns.get(s[1])
-                ct = unwrap_newtypes(TermCx(P, cf).local(0)) if cf else None
-                ctx.check(ct == ("arg", 2), "PROV", f.key, "delta==random-value",
-                          "each non-last delta must be exactly the drawn value", f.loc)
     f = ctx.anchor(RP + "repair_share_part2")
     if f:
         reductions(ctx, f.key, adaptors={}, min_loops=0)
